@@ -121,6 +121,11 @@ def build_data(form, samples, tags, vseed):
             leaf_o, eo = gen_leaf(r, 1, False)
             data["opt"] = leaf_o
             exp[tags[0]]["opt"] = eo[0]
+        if r.random() < 0.5:
+            # a field of its own in about every other call: a refused re-write of an index usually names other
+            # fields than the stored sample has, and must leave none of them behind
+            data["aa_extra"] = tags[0] * 3
+            exp[tags[0]]["aa_extra"] = tags[0] * 3
         return samples[0], data, exp
     if form == "dict":
         leaf_x, ex = gen_leaf(r, N, True)
@@ -142,6 +147,9 @@ def build_data(form, samples, tags, vseed):
             leaf_o, eo = gen_leaf(r, 1, False)
             dd["opt"] = leaf_o
             exp[t]["opt"] = eo[0]
+        if r.random() < 0.5:
+            dd["aa_extra"] = t * 3
+            exp[t]["aa_extra"] = t * 3
         data.append(dd)
     return list(samples), data, exp
 
